@@ -122,6 +122,9 @@ def run(ctx: Ctx) -> None:
         run_public(ctx, case, tags, pairs)
     compare(ctx, pairs)
 
+    from . import datapath  # full-stack stage: the same property through the real sourcing -> resampling -> formula stack
+    datapath.run_stage(ctx, {"C08-window"}, n_quick=40, n_thorough=600)
+
 
 def exhaustive_cases() -> list[dict]:
     """Bounded-exhaustive small scope: every non-decreasing sequence of <= 4 stamps over the lattice of window edges
